@@ -134,6 +134,7 @@ func allTypedBimaps(r *ev.Run) int {
 	n += typedBimap(r, spell.AnyAlike, spell.StringAlike)
 	n += typedBimap(r, spell.Stringers, spell.Errors)
 	n += typedBimap(r, spell.Chans, spell.Stringers)
+	n += typedBimap(r, spell.Liars, spell.Liars)
 	n += typedBimap(r, spell.FloatAlike, spell.AnyAlike)
 	return n
 }
